@@ -244,6 +244,9 @@ func compare(p *prepared, text string, res *emit.LexResult) error {
 	return nil
 }
 
+// longUnit: tokens whose lexemes can be made long by repeating a unit.
+var longUnit = map[string]string{"ID": "ab9_", "NUM": "90", "STR": "xy+", "CYR": "яд", "CJK": "中文", "EACUTE": "é"}
+
 var nearMisses = []string{"1.", "@", "\"abc", "~", "1.x", "é", "\x01", "-", "=>>", "#A", "ж", "\u07ff", "\U0010FFFF"}
 
 func genInput(t *rapid.T, p *prepared) string {
@@ -262,6 +265,15 @@ func genInput(t *rapid.T, p *prepared) string {
 			return rapid.SampledFrom(nearMisses).Draw(t, "nearMiss")
 		}
 		d := rapid.SampledFrom(p.defs).Draw(t, "def")
+		if unit, ok := longUnit[d.use]; ok && rapid.IntRange(0, 24).Draw(t, "longLexeme") == 0 {
+			// one lexeme of up to just below one buffer half (the documented bound of the two-buffer scheme)
+			n := rapid.SampledFrom([]int{300, 1000, 2040, 2049, 2060, 3000, 3500, 4000, 4080}).Draw(t, "lexemeBytes")
+			body := strings.Repeat(unit, n/len(unit))
+			if d.use == "STR" {
+				return `"` + body + `"`
+			}
+			return body
+		}
 		return rapid.SampledFrom(d.samples).Draw(t, "lexeme")
 	}
 	at := rapid.IntRange(0, n).Draw(t, "padAt")
@@ -298,6 +310,14 @@ func classify(p *prepared, text string) (bool, []string) {
 	}
 	if len(text) > 4096 {
 		cls = append(cls, "longer_than_one_half")
+	}
+	run := 0
+	for _, r := range text {
+		if r == ' ' || r == '\n' || r == '\t' || r == '\r' {
+			run = 0
+		} else if run++; run == 2000 {
+			cls = append(cls, "lexeme_longer_than_2000")
+		}
 	}
 	if len(text) > 8192 {
 		cls = append(cls, "longer_than_the_buffer")
